@@ -150,6 +150,12 @@ impl<'tcx> Ex<'tcx> {
                     ty::ConstKind::Value(v) => {
                         if let Some(si) = v.try_to_leaf() {
                             o.push(("value", self.scalar_int_to_j(si, ty)));
+                        } else if let ty::Ref(_, inner, _) = ty.kind() {
+                            if inner.is_str() {
+                                if let Some(bytes) = v.try_to_raw_bytes(tcx) {
+                                    o.push(("str", J::Str(String::from_utf8_lossy(bytes).to_string())));
+                                }
+                            }
                         }
                     }
                     ty::ConstKind::Unevaluated(u) => {
@@ -188,6 +194,27 @@ impl<'tcx> Ex<'tcx> {
                             o.push(("value", self.scalar_int_to_j(si, ty)));
                         }
                     } else {
+                        // pointer to a byte array (e.g. format_args! templates): export the bytes
+                        if let rustc_middle::mir::interpret::Scalar::Ptr(ptr, _) = s {
+                            if let ty::Ref(_, inner, _) = ty.kind() {
+                                if let ty::Array(elem, _) = inner.kind() {
+                                    if *elem == tcx.types.u8 {
+                                        let (prov, off) = ptr.prov_and_relative_offset();
+                                        if let rustc_middle::mir::interpret::GlobalAlloc::Memory(alloc) =
+                                            tcx.global_alloc(prov.alloc_id())
+                                        {
+                                            let a = alloc.inner();
+                                            let start = off.bytes() as usize;
+                                            let bytes = a.inspect_with_uninit_and_ptr_outside_interpreter(start..a.len());
+                                            o.push((
+                                                "bytes",
+                                                J::Arr(bytes.iter().map(|b| J::Num(b.to_string())).collect()),
+                                            ));
+                                        }
+                                    }
+                                }
+                            }
+                        }
                         o.push(("text", J::Str(format!("{}", c))));
                     }
                 }
